@@ -10,29 +10,29 @@
 (* `has` records that the current word exists even if it is empty ("").    *)
 (*                                                                         *)
 (* Two dialects are computed side by side:                                 *)
-(*  doc    what internal/shellparse documents (doc comment "quoted          *)
-(*         arguments with spaces", its comments "escape sequences in        *)
-(*         quotes" / "in single quotes, backslash is a literal character",  *)
-(*         and its example table): blanks split; '..' literal; in ".."      *)
-(*         a backslash escapes only " and \ ; a backslash is NOT special    *)
-(*         outside quotes; quoted and unquoted pieces that touch form one   *)
-(*         word (the documentation is silent here: POSIX rule 2.2);         *)
-(*         an open quote at the end is an error.                            *)
+(*  doc    what internal/shellparse documents (doc comment "quoted         *)
+(*         arguments with spaces", its comments "escape sequences in       *)
+(*         quotes" / "in single quotes, backslash is a literal character", *)
+(*         and its example table): blanks split; '..' literal; in ".."     *)
+(*         a backslash escapes only " and \ ; a backslash is NOT special   *)
+(*         outside quotes; quoted and unquoted pieces that touch form one  *)
+(*         word (the documentation is silent here: POSIX rule 2.2);        *)
+(*         an open quote at the end is an error.                           *)
 (*  posix  POSIX sh 2.2 quoting without expansions: additionally a         *)
-(*         backslash outside quotes quotes the next character (a trailing   *)
-(*         one stays literal), and in ".." a backslash also escapes $.      *)
+(*         backslash outside quotes quotes the next character (a trailing  *)
+(*         one stays literal), and in ".." a backslash also escapes $.     *)
 (* Where both agree (no rule the documentation is silent about fired) the  *)
 (* result is the only acceptable one; where they differ either reading is  *)
 (* acceptable and nothing else.  No `$` expansion happens in either: the   *)
 (* callers expand before splitting.                                        *)
 (*                                                                         *)
 (* Mode "split":     TLC builds every string of length <= MaxLen char by   *)
-(*                   char, stepping both automata, and prints the string    *)
-(*                   with the expected words / error.                       *)
+(*                   char, stepping both automata, and prints the string   *)
+(*                   with the expected words / error.                      *)
 (* Mode "roundtrip": TLC builds every argument list (<= MaxArgs arguments  *)
-(*                   of <= MaxArgLen characters), checks the laws           *)
-(*                   RoundTrip for both producers in both dialects, and     *)
-(*                   prints the list with its quoted command lines.         *)
+(*                   of <= MaxArgLen characters), checks the laws          *)
+(*                   RoundTrip for both producers in both dialects, and    *)
+(*                   prints the list with its quoted command lines.        *)
 (***************************************************************************)
 EXTENDS Integers, Sequences, FiniteSets, TLC, Json
 
